@@ -199,6 +199,15 @@ CHECKS = {
   note="Partial. Trusted: Coq kernel, vm_compute, C05 generator and resolution model, catalogue. Context classification is catalogue-only.",
   technique="Rocq proof (prefix filter exact; PRIVATE/ONLY respected for all programs; offered names resolve) over a transcription validated differentially + ground-truth differential on generated workspaces + context catalogue",
   design="4/C12"),
+ "C11": dict(
+  text="Coq theorems (C11/Props.v): for every sequence of documentation blocks and entity creations no block is shown on two entities; a `!>` block documents the "
+       "next entity, a `!<`/`!!` block the last one, nothing else changes; the active parameter of signature help is the argument index when no `keyword=` is "
+       "involved, the named parameter under `keyword=`, and the slot after it for the next positional argument. Both models are validated against the "
+       "implementation (recorded add_doc/add_scope/add_variable events; activeParameter of serve_signature). Restating type, selector, attributes, name, "
+       "PARAMETER value, documentation, argument order and per-argument declarations is checked by an oracle on generated modules.",
+  note="Partial. Trusted: Coq kernel, vm_compute, trace validation, the generator and the normalising comparison. Declaration readers/renderers are oracle-only.",
+  technique="Rocq proof (documentation attached to exactly one entity; active-parameter rule) over hand models trace-validated against the implementation + generated-declaration hover/signature oracle",
+  design="4/C11"),
 }
 NOT_YET = "not yet built in this round; see DESIGN.md section 8 (build order)"
 
